@@ -103,6 +103,51 @@ CHECKS["C19"] = (
     BASE_NOTE + "Outside: datetime symbols, more objects, longer strings.",
     "6/C19")
 
+CHECKS["C06"] = (
+    "An emp with symbolic unique name, nullable unique nick (nil/empty/value), any roles subset, optional fk reference to a dept (back-reference), optional "
+    "links and a ref-counted link (count 0..2) to depts, with or without child-store data, next to a bystander sharing targets, is deleted through the parent or "
+    "the child store: afterwards a walk over every bucket, key and value finds the id nowhere (bare or type-tagged), boltz.ValidateDeleted agrees, the bystander "
+    "and its links are untouched, and the id with its old unique values can be created again with no links and no child data. Same for a dept that is linked "
+    "and ref-count-linked from emps, and for a parent with an extended child store plus a second child store owning a unique index (delete through any of the three).",
+    BASE_NOTE + "Victim id is a fixed string distinct from every symbolic value. Restricting wirings and cascade are C04's subject.",
+    "6/C06")
+CHECKS["C07"] = (
+    "Arbitrary population of 2 slots (absent / plain parent / parent+child, symbolic names), then a Db.Update (1 op quick, 2 thorough) or Db.Batch body of "
+    "symbolic operations (create through parent or child store, update through either, field-restricted update, delete through either, create with blank id) "
+    "under a symbolic failure schedule: constraint veto per change type, duplicate unique value, missing entity, caller error after the body, either of two "
+    "pre-commit actions failing. Asserted: each store call returns an error iff one of its steps was rejected; the transaction returns an error iff anything "
+    "failed; then no entity event, commit action or tx-complete listener ran and the stored state equals the pre-state; otherwise the state is the model's.",
+    BASE_NOTE + "'Database left exactly as before' rests on bbolt's rollback, which the mbolt model has by construction (assumed of bbolt); what is checked "
+    "is that the error which triggers it always reaches the caller. Storage-level failures of bbolt calls are not injected (no native replay possible).",
+    "6/C07")
+CHECKS["C08"] = (
+    "Same machinery with 2 (quick) / 3 (thorough) operations per transaction and every registration style on parent and child store (typed listener, function, "
+    "untyped, id-only, typed constraint, untyped constraint; each for create+update+delete): the recorded event log equals, element by element, the log derived "
+    "from the model: one delivery per listener per committed change, final state for create/update (the stored one, also for field-restricted updates), last state "
+    "for delete, child changes once more on the parent store flagged as parent event, none for plain parent entities on the child store, nothing for failed "
+    "transactions, commit actions and tx-complete listeners once.",
+    BASE_NOTE + "Commit actions run in a goroutine in the real code; the executor runs it inline (one schedule), the native replay waits for it. *Async event types are not exercised.",
+    "6/C08")
+CHECKS["C09"] = (
+    "A consistent population (2 emps with symbolic names, roles, nullable unique nick nil/empty/value, fk references and links to 2 depts) is reported clean and "
+    "left unchanged in check and fix mode. With one corruption injected below the API out of 16 classes (unique index: missing / extra for a missing entity / stale "
+    "entry; set index: missing member, extra member, member of a missing entity, empty key, non-bucket key; fk: missing back-reference, missing back-reference "
+    "bucket, extra back-reference, back-reference of a missing entity, dangling nullable reference; links: one-sided either way, dangling): check mode reports it, "
+    "marks nothing fixed and leaves the logical content unchanged; one fix run reports it and an immediate re-check is clean with unique/set indexes, "
+    "back-references and links again mirroring the entities.",
+    BASE_NOTE + "Logical content = every key/value and every non-empty bucket (the code creates empty field/index buckets lazily, also on read paths). "
+    "One corruption at a time in quick. Genuine conflicts (duplicate unique values) are not injected yet.",
+    "6/C09")
+CHECKS["C15"] = (
+    "Parent store + child store (plain and Extended), 2 slots each absent / plain parent / parent+child with symbolic names and child field; one symbolic "
+    "operation through either store (create, update, delete; empty and duplicate names included). Asserted on every path: accepted iff the reference model "
+    "accepts it (the parent's non-nullable unique index applies to both stores); parent part, child data, shared field, parent unique index exactness; child store "
+    "FindById / QueryIds / sorted QueryIds with limit / IterateValidIds return exactly the entities with child data (all parent entities for lookups and queries "
+    "when extended); parent store queries return every entity.",
+    BASE_NOTE + "The child update handler's mapper is the harness's (copies the caller's shared fields onto the stored child). Create through the child store of an "
+    "existing plain parent id and delete through the child store of an entity without child data are outside (not constrained by the statement).",
+    "6/C15")
+
 NOT_APPLICABLE = {
     "C18": "quantifies over goroutine schedules and data races on top of bbolt's MVCC; a sequential SSA symbolic executor has no schedule variable, bbolt's isolation is not encodable, and in the bbolt model it would hold by construction (DESIGN.md section 7)",
 }
